@@ -67,6 +67,10 @@ func (r *RAKPMessage2) DecodeFromBytes(data []byte, df gopacket.DecodeFeedback) 
 	// [2:4] reserved
 	r.RemoteConsoleSessionID = binary.LittleEndian.Uint32(data[4:8])
 	if r.Status == StatusCodeOK {
+		if len(data) < 40 {
+			df.SetTruncated()
+			return fmt.Errorf("successful RAKP Message 2 must be at least 40 bytes, got %v", len(data))
+		}
 		copy(r.ManagedSystemRandom[:], data[8:24])
 		copy(r.ManagedSystemGUID[:], data[24:40])
 		if len(data) > 40 {
